@@ -156,6 +156,7 @@ func (ex *Exec) verifyFunction(fn *ssa.Function, con *Contract) (rep *FuncReport
 	ex.privMaps = nil
 	ex.pureSeen = map[string]bool{}
 	ex.nilable = map[*Term]string{}
+	ex.usedText = map[string]bool{}
 	st := &State{reach: True(), cells: map[*ssa.Alloc]Val{}, heap: newHeap("")}
 	var args []Val
 	for i, p := range fn.Params {
@@ -277,6 +278,39 @@ func (ex *Exec) verifyFunction(fn *ssa.Function, con *Contract) (rep *FuncReport
 	for _, cp := range con.Captures {
 		if ex.findCaptureSite(fn, cp) == nil {
 			ex.oblige(fr, res.st, "binding", "capture "+cp.Name, False(), token.NoPos, fmt.Sprintf("capture %s = call(%s, %d) matches no call site", cp.Name, cp.Callee, cp.Ord))
+		}
+	}
+	// a loop clause that produced no obligation at all was silently dropped (its loop has no edge
+	// of the kind the clause is checked at, or the generator lost the edge): that is a failure of
+	// the binding, never a pass
+	{
+		var ks []int
+		for k := range con.Loops {
+			ks = append(ks, k)
+		}
+		sort.Ints(ks)
+		for _, k := range ks {
+			if k >= len(fr.li.heads) {
+				continue
+			}
+			ls := con.Loops[k]
+			var cls []*Clause
+			cls = append(cls, ls.BodyEnsures...)
+			cls = append(cls, ls.ExitEnsures...)
+			cls = append(cls, ls.EntryEnsures...)
+			cls = append(cls, ls.Invariants...)
+			if ls.Decreases != nil {
+				cls = append(cls, ls.Decreases)
+			}
+			for _, cl := range cls {
+				if !ex.usedText[cl.Text] {
+					lab := cl.Label
+					if lab == "" {
+						lab = cl.Kind
+					}
+					ex.oblige(fr, res.st, "binding", fmt.Sprintf("loop%d.%s produced no obligation", k, lab), False(), token.NoPos, cl.Text)
+				}
+			}
 		}
 	}
 	for _, cl := range con.Asserts {
